@@ -79,6 +79,27 @@ Definition go_set_index {A} (l : list A) (i : Z) (x : A) : res (list A) :=
   then Val (upd_nth l (Z.to_nat i) x)
   else Panic "index out of range".
 
+(* slices of bytes ([]byte, []uint8) are lists of Z (each element 0..255 when produced by translated code):
+   s[i] panics outside 0 <= i < len(s); s[i] = x is go_set_index above *)
+Definition go_index_z (l : list Z) (i : Z) : res Z :=
+  if (0 <=? i) && (i <? Z.of_nat (length l))
+  then Val (nth (Z.to_nat i) l 0)
+  else Panic "index out of range".
+
+(* append(s, make([]byte, n)...): make panics on a negative length; memory is unbounded in this semantics *)
+Definition go_extend (l : list Z) (n : Z) : res (list Z) :=
+  if n <? 0 then Panic "makeslice: len out of range" else Val (l ++ repeat 0 (Z.to_nat n)).
+
+(* a << n at type t: run-time panic on a negative count, all bits shifted out from the width on (the middle
+   branch equals the last one there and only keeps evaluation cheap), otherwise the product wrapped to t *)
+Definition go_shl (t : ity) (a n : Z) : res Z :=
+  if n <? 0 then Panic "negative shift amount"
+  else if bits t <=? n then Val 0
+  else Val (wrap t (Z.shiftl a n)).
+(* bitwise and / or on two's complement values of type t *)
+Definition go_and (t : ity) (a b : Z) : res Z := Val (wrap t (Z.land a b)).
+Definition go_or (t : ity) (a b : Z) : res Z := Val (wrap t (Z.lor a b)).
+
 Module GoNotations.
   Notation "x <- m ;; k" := (bind m (fun x => k)) (at level 61, m at next level, right associativity).
   Notation "' p <- m ;; k" := (bind m (fun p => k)) (at level 61, p pattern, m at next level, right associativity).
